@@ -10,6 +10,7 @@ import Yv.Model.Views
 import Yv.Model.LR0L
 import Yv.Model.SplitA
 import Yv.Model.ListingDrv
+import Yv.Model.Subst
 import Yv.Model.Drive
 import Yv.Model.XDrv
 import Yv.Model.Visitor
@@ -62,6 +63,8 @@ structure CaseAcc where
   wantDot : Bool := false
   dnames : Array String := #[]
   rnames : Array String := #[]
+  sRules : Array Subst.RuleInfo := #[]
+  sSkip : Bool := false
   iLLA : Array (Nat × Nat × List Nat) := #[]
 
 def parseItem (s : String) : Item :=
@@ -105,6 +108,16 @@ def process (out : IO.FS.Stream) (a : CaseAcc) : IO Unit := do
     | some au =>
       let same := au.states.toList.map (fun its => its.map fun (r, d) => (⟨r, d⟩ : Y.Item)) == la.items && au.gotos.toList == la.gotos
       out.putStrLn s!"X coreLR0=buildL {verdict same}"
+      -- is the GRAMMAR LALR(1)?  decided on the verified generator's automaton with the verified lookahead
+      -- oracle, independently of the automaton the implementation built
+      if same then
+        match Y.laL yg0 g.nSyms la with
+        | none => out.putStrLn "V isLALR1ref unknown"
+        | some ylaRef =>
+          let tref : LATab := au.states.mapIdx fun q its => its.map fun it => (it, ylaRef.get q ⟨it.1, it.2⟩)
+          let mcRef := maxCands g au tref
+          out.putStrLn s!"V isLALR1ref {if mcRef ≤ 1 then "yes" else "no"} {mcRef}"
+      else out.putStrLn "V isLALR1ref unknown"
   let iau0 : Auto := { states := a.iStates, gotos := a.iGotos }
   -- lookaheads: the propagation fixpoint on the implementation's automaton
   match lalr g iau0 with
@@ -406,6 +419,27 @@ partial def loop (inp out : IO.FS.Stream) (a : CaseAcc) (x : XAcc := {}) : IO Un
   match ws with
   | "XCASE" :: id :: _ => loop inp out a { id := id, active := true }
   | "PCASE" :: id :: _ => loop inp out a { id := id, isPack := true }
+  | "SCASE" :: id :: _ => loop inp out { id := id }
+  | "SRULE" :: _ :: lhsId :: lineNo :: lhsName :: lhsTag :: code :: n :: rest =>
+    -- rest = n pairs (name, tag), then "|", the number of names of the visitor's rule, and its extra names
+    let hx (t : String) : String := if t == "-" then "" else
+      match String.fromUTF8? (hexDecode t) with | some x => x | none => "?"
+    let k := n.toNat!
+    let pairs := (List.range k).map fun i => (hx (rest.getD (2 * i) "-"), hx (rest.getD (2 * i + 1) "-"))
+    let extra := (rest.drop (2 * k + 2)).length
+    loop inp out { a with sSkip := a.sSkip || extra != 0,
+                          sRules := a.sRules.push { lhsId := lhsId.toNat!, lhsName := hx lhsName, lhsTag := hx lhsTag,
+                                                    rhs := pairs, lineNo := lineNo.toNat!, code := hx code } }
+  | "SEND" :: _ => do
+    out.putStrLn s!"SCASE {a.id}"
+    if a.sSkip then out.putStrLn "M SSKIP"
+    else
+      for (tag, t) in [("SGO", Subst.Target.goGlobal), ("SOBJ", Subst.Target.goObject), ("STS", Subst.Target.ts)] do
+        match Subst.driverReduceFunc a.sRules t with
+        | none => out.putStrLn s!"M {tag} PANIC"
+        | some txt => out.putStrLn s!"M {tag} {if txt.isEmpty then "-" else hexEncode txt}"
+    out.putStrLn "SEND"
+    loop inp out {}
   | "FCASE" :: id :: _ => loop inp out { id := id }
   | "SRC" :: hex :: _ => do processF out a.id hex; loop inp out {}
   | ["SRC"] => do processF out a.id ""; loop inp out {}
